@@ -118,7 +118,7 @@ type Env struct {
 }
 
 func EnvFromOS() Env {
-	wd := 60 * time.Second
+	wd := 40 * time.Second
 	return Env{
 		MoqBin:   os.Getenv("VP_MOQ"),
 		GoRoot:   os.Getenv("VP_GOROOT"),
